@@ -139,6 +139,10 @@ Narrow(sel, a, b, rl, cl) ==
            cs == PyIndex(R0.cols, b)
        IN  [ok |-> TRUE, wells |-> Product(rs, cs), shape |-> <<Len(rs), Len(cs)>>]
 
+\* selector or narrowed selector [k |-> "sub", base, a, b]
+DenoteAny(sel, rl, cl) == IF sel.k = "sub" THEN Narrow(sel.base, sel.a, sel.b, rl, cl) ELSE Denote(sel, rl, cl)
+Sub(base, a, b) == [k |-> "sub", base |-> base, a |-> a, b |-> b]
+
 (***************************************************************************)
 (* Default labels: rows 'A'..'Z','AA','AB',... (bijective base 26),        *)
 (* columns '1','2',...; a well is named "well <row>,<col>".                *)
